@@ -13,6 +13,8 @@ from evosim.props import common, c01
 
 ID = 'C07'
 LEVEL = 'fault_enumeration'
+LEVEL_TEXT = ('complete enumeration of every injected-failure point k (and crash point) of each generated upgrade run, sampled over programs: for each program the fault dimension is exhaustive, the program dimension is seeded search')
+TECHNIQUE = ('deterministic simulation with fault injection: sql_error@k / crash@k at every statement index via connection.execute_wrapper, forked database state, retry, snapshot comparison')
 PLAN = {
     'quick': {'count': 90, 'max_wall': 170, 'shrink_budget': 12,
               'shrink_wall': 150},
@@ -50,6 +52,29 @@ def generate(seed, index, tier):
     return scn
 
 
+def _phase(run):
+    """Where the injected statement sits: inside a creating_models /
+    applying_* bracket ('bracket'), after model creation outside any
+    bracket ('deferred' SQL of new models), or elsewhere ('outside')."""
+    depth = 0
+    created = False
+    for e in run.events:
+        if e['t'] == 'sig':
+            n = e['name']
+            if n in ('creating_models', 'applying_evolution',
+                     'applying_migration'):
+                depth += 1
+                created = created or n == 'creating_models'
+            elif n in ('created_models', 'applied_evolution',
+                       'applied_migration'):
+                depth -= 1
+        elif e['t'] == 'sql' and e.get('inj'):
+            if depth > 0:
+                return 'bracket'
+            return 'deferred' if created else 'outside'
+    return 'none'
+
+
 def _faulted(ws, scn, sts, fault, pre, post_u, k, kind, scope, viols, stats,
              tags, u_status):
     ws.use_db('pre')
@@ -61,7 +86,7 @@ def _faulted(ws, scn, sts, fault, pre, post_u, k, kind, scope, viols, stats,
     stats['fired_%s_%s' % (kind, scope)] = stats.get(
         'fired_%s_%s' % (kind, scope), 0) + 1
     detail = dict(k=k, fault=kind, scope=scope, statement=inj['sql'][:120],
-                  ops=tags, mode=scn.get('mode'))
+                  ops=tags, mode=scn.get('mode'), phase=_phase(r))
     if kind == 'sql_error':
         if r.status == 'ok':
             viols.append(violation('C07.failure_swallowed', **detail))
@@ -121,7 +146,7 @@ def execute(scn):
         ws.fork_db('pre')
         pre = snapshot.snapshot(ws)
         u, _ = c01.run_upgrade(ws, scn, sts, scope='all')
-        if common.rejected_before_sql(u):
+        if getattr(u, 'placeholder', False) or common.rejected_before_sql(u):
             stats['rejected_before_sql'] = 1
             res['runs'] = ws.nruns
             return res
